@@ -24,8 +24,8 @@ OPEN = {
 	'C03': 'Stack depth and running time are runtime behaviour: measured (deep inputs under a lowered recursion limit; long runs with hostile tails under a wall-clock budget in a child interpreter), not proved. zlib, email.header.decode_header and the idna codec are outside the model (`needsOracle`); for those inputs only the oracle on the real code speaks.',
 	'C04': 'Responses: one theorem for the whole message (`response_roundtrip`, `response_roundtrip_chunked`), composed of C18 (`response_line_roundtrip`), C08 (`compose_parse_roundtrip`), C05/C14 (`chunkFrame`) and the pipeline theorem of C02. Open: the same for requests (the target passes through URI parse, normalisation, the 301 rule and the Host hooks: each link proved or tied separately, the conjunction decided by the oracle) and for content codings inside the whole-message statement.',
 	'C05': 'Idempotence of prepare() is proved for requests and for responses other than to HEAD (`prepareRequest_idem`, `prepareResponse_idem`); the HEAD exception is finding F46. Non-destructiveness of body sources (file positions, generator buffering) is behaviour of Python objects: decided by repeated composition on the real code.',
-	'C06': 'Relies on C11 (`abspath_clean`, `abspath_fixed`).',
-	'C07': 'The HTTP/1.0 + chunked combination is finding F6.',
+	'C06': 'Relies on C11 (`abspath_clean`, `abspath_fixed`). The statement for every stream and fragmentation is `delivered_requests_sanitised` (`Props/C06Invariant.lean`): an invariant of the loop, by induction over the calls. Host and port (the last clause) are proved per hook (`host_from_header`, `defaults_applied`), not yet as part of the invariant.',
+	'C07': 'The HTTP/1.0 + chunked combination is finding F6. The framing clause holds for every stream and fragmentation on both sides (`delivered_messages_framed`, `Props/C07Invariant.lean`); the trailer clause is proved for the trailer reader (`mergeGo_keeps_unannounced`, `unannounced_trailer_400`), not yet lifted to the loop.',
 	'C08': 'The round-trip clause is a theorem (`compose_parse_roundtrip`, `Proofs/HeadersRoundtrip.lean`) for collections without list-valued fields; those (Set-Cookie, WWW-Authenticate, Proxy-Authenticate) are composed field-specifically and judged by the oracle.',
 	'C09': 'The whole element is a theorem (`element_roundtrip`, `Proofs/ElementRoundtrip.lean`): a value and any number of parameters with pairwise different canonical keys and ASCII values free of double quotes parse back in order; the proof carries quote parity across parameters, so no `;` or `,` inside a quoted value cuts and no parameter merges with its neighbour. The list clause is `list_roundtrip` (split of join gives back the composed elements, each parses to its element). Open as theorems: RFC 2231 continuations and RFC 5987 extended values - tied by correspondence for the four element classes.',
 	'C10': 'Proved: the three inner cuts (userinfo, host:port, path) and the five outer cuts (`uri_cuts`, `compose_assemble`): no component leaks into its neighbour. Open as one theorem: the final record (class by scheme, port defaults) - correspondence/oracle. IPv6 literals and IDN hosts go through socket/idna: oracle only.',
